@@ -51,6 +51,23 @@ def run(ctx):
     obsG = ctx.run_impl(G, 'rhistory', timeout=2400)
     raglib.locale_independent(ctx, A, obsA, 'history', 'array-history')
     raglib.locale_independent(ctx, G, obsG, 'rhistory', 'ragged-history')
+    # re-creation over an existing array with overwrite=True
+    O = [dict(old=o, how=h, meta_old=mo, meta_new=mn) for o in ('Array', 'RaggedArray')
+         for h in ('asarray', 'create_array', 'copy', 'asraggedarray') for mo in (True, False) for mn in (True, False)]
+    for case, ob in zip(O, ctx.run_impl(O, 'overwrite', timeout=1200)):
+        key = dict(kind='overwrite', **case)
+        if 'harness_error' in ob:
+            ctx.fail('harness-error', key, observed=ob); continue
+        ctx.seen(key, nontrivial=case['meta_old'] != case['meta_new']); ctx.count('overwrite:' + case['how']); ctx.evaluations += 1
+        if ob['res'][0] != 'ok':
+            ctx.fail('overwrite-failed', key, observed=ob['res']); continue
+        if not ob['same']:
+            ctx.fail('readme-stale-after-overwrite', key, expected='README == documentation regenerated from a fresh handle',
+                     observed=dict(mentions_metadata=ob['mentions'], metadata_file=ob['hasmeta'], listing=ob['listing']))
+        if ob['hasmeta'] != ob['expect_meta']:
+            ctx.fail('metadata-file-after-overwrite', key, expected=ob['expect_meta'], observed=ob['hasmeta'])
+        if case['how'] != 'asraggedarray' and ob['mentions'] != ob['hasmeta']:
+            ctx.fail('readme-metadata-mention-after-overwrite', key, expected=ob['hasmeta'], observed=ob['mentions'])
     termsA, keepA = [], []
     for case, steps in zip(A, obsA):
         key = dict(kind='Array', nt=case['nt'], shape=case['shape'], letters=case['letters'],
